@@ -8,6 +8,7 @@
 #include "async/async_worker.h"
 #include "port/sync.h"
 #include <pthread.h>
+#include <stdatomic.h>
 #include <stdlib.h>
 #include <errno.h>
 #include <time.h>
@@ -17,7 +18,7 @@ struct async_worker_s {
     pthread_t thread;
     async_worker_proc_t proc;
     void* context;
-    volatile async_worker_state_t state;
+    atomic_int state;            /* async_worker_state_t; written by the worker thread, read by its owner */
     bool thread_created;
     platform_event_t stop_event;
 };
@@ -30,11 +31,11 @@ static void* worker_thread_proc(void* param) {
     async_worker_t* worker = (async_worker_t*)param;
     tls_current_worker = worker;
     
-    worker->state = ASYNC_WORKER_RUNNING;
+    atomic_store(&worker->state, ASYNC_WORKER_RUNNING);
     
     void* result = worker->proc(worker->context);
     
-    worker->state = ASYNC_WORKER_STOPPED;
+    atomic_store(&worker->state, ASYNC_WORKER_STOPPED);
     tls_current_worker = NULL;
     
     return result;
@@ -48,7 +49,7 @@ async_worker_t* async_worker_create(async_worker_proc_t proc, void* context, siz
     
     worker->proc = proc;
     worker->context = context;
-    worker->state = ASYNC_WORKER_STOPPED;
+    atomic_init(&worker->state, ASYNC_WORKER_STOPPED);
     worker->thread_created = false;
     
     if (!platform_event_init(&worker->stop_event, true, false)) {
@@ -110,12 +111,12 @@ bool async_worker_join(async_worker_t* worker, int timeout_ms) {
         struct timespec sleep_time = { 0, 10000000 };  /* 10ms */
         int elapsed_ms = 0;
         
-        while (worker->state != ASYNC_WORKER_STOPPED && elapsed_ms < timeout_ms) {
+        while (atomic_load(&worker->state) != ASYNC_WORKER_STOPPED && elapsed_ms < timeout_ms) {
             nanosleep(&sleep_time, NULL);
             elapsed_ms += 10;
         }
         
-        if (worker->state == ASYNC_WORKER_STOPPED) {
+        if (atomic_load(&worker->state) == ASYNC_WORKER_STOPPED) {
             pthread_join(worker->thread, NULL);
             return true;
         }
@@ -134,7 +135,7 @@ bool async_worker_should_stop(async_worker_t* worker) {
 }
 
 async_worker_state_t async_worker_get_state(const async_worker_t* worker) {
-    return worker ? worker->state : ASYNC_WORKER_STOPPED;
+    return worker ? (async_worker_state_t)atomic_load(&((async_worker_t*)worker)->state) : ASYNC_WORKER_STOPPED;
 }
 
 platform_event_t* async_worker_get_stop_event(async_worker_t* worker) {
